@@ -510,6 +510,21 @@ def _int_cmp(self, args):
 for _t in _INT_RANGES:
     STD_MODELS["std::cmp::impls::<impl std::cmp::Ord for %s>::cmp" % _t] = _int_cmp
 
+
+def _int_minmax(pick):
+    def f(self, args):
+        a, b = args[0], args[1]
+        if not (_isc(a) and _isc(b) and isinstance(a[1], int) and isinstance(b[1], int)):
+            raise Unknown("min/max of non-integers")
+        return _c(pick(int(a[1]), int(b[1])))
+    return f
+
+
+for _n in ("std::cmp::Ord::min", "std::cmp::min"):
+    STD_MODELS[_n] = _int_minmax(min)
+for _n in ("std::cmp::Ord::max", "std::cmp::max"):
+    STD_MODELS[_n] = _int_minmax(max)
+
 for _a in _INT_RANGES:
     for _b in _INT_RANGES:
         if _a != _b:
